@@ -231,7 +231,7 @@ const c16RulesBase = "      - name: provided\n        create: true\n"
 
 var c16Docs = []string{
 	// 0 base
-	c16Doc(c16RulesBase, "", `          - name: a
+	c16Doc(c16RulesBase, "", `          - name: A
             resources:
               max: {memory: 4}
           - name: p
@@ -248,7 +248,7 @@ var c16Docs = []string{
                   guaranteed: {memory: 1}
 `),
 	// 1 maxima / guaranteed changed
-	c16Doc(c16RulesBase, "", `          - name: a
+	c16Doc(c16RulesBase, "", `          - name: A
             resources:
               max: {memory: 2}
           - name: p
@@ -267,7 +267,7 @@ var c16Docs = []string{
                   guaranteed: {memory: 2}
 `),
 	// 2 properties changed (inherited ones included)
-	c16Doc(c16RulesBase, "", `          - name: a
+	c16Doc(c16RulesBase, "", `          - name: A
             resources:
               max: {memory: 4}
             properties:
@@ -304,7 +304,7 @@ var c16Docs = []string{
                   guaranteed: {memory: 1}
 `),
 	// 4 x removed below p, z added
-	c16Doc(c16RulesBase, "", `          - name: a
+	c16Doc(c16RulesBase, "", `          - name: A
             resources:
               max: {memory: 4}
           - name: p
@@ -322,7 +322,7 @@ var c16Docs = []string{
                   guaranteed: {memory: 1}
 `),
 	// 5 max applications everywhere, template changed
-	c16Doc(c16RulesBase, "", `          - name: a
+	c16Doc(c16RulesBase, "", `          - name: A
             maxapplications: 1
             resources:
               max: {memory: 4}
@@ -345,7 +345,7 @@ var c16Docs = []string{
                   guaranteed: {memory: 1}
 `),
 	// 6 invalid: duplicate child
-	c16Doc(c16RulesBase, "", `          - name: a
+	c16Doc(c16RulesBase, "", `          - name: A
           - name: p
             parent: true
             queues:
@@ -353,7 +353,7 @@ var c16Docs = []string{
               - name: X
 `),
 	// 7 passes validation, refused by the placement manager
-	c16Doc("      - name: unknown\n", "", `          - name: a
+	c16Doc("      - name: unknown\n", "", `          - name: A
             resources:
               max: {memory: 1}
           - name: p
@@ -362,7 +362,7 @@ var c16Docs = []string{
               - name: x
 `),
 	// 8 placement rules, node sort policy and preemption flags changed
-	c16Doc("      - name: fixed\n        value: root.a\n      - name: provided\n        create: true\n", "    nodesortpolicy:\n      type: binpacking\n    preemption:\n      enabled: false\n", `          - name: a
+	c16Doc("      - name: fixed\n        value: root.a\n      - name: provided\n        create: true\n", "    nodesortpolicy:\n      type: binpacking\n    preemption:\n      enabled: false\n", `          - name: A
             resources:
               max: {memory: 4}
           - name: p
@@ -379,7 +379,7 @@ var c16Docs = []string{
                   guaranteed: {memory: 1}
 `),
 	// 9 leaf a becomes a parent
-	c16Doc(c16RulesBase, "", `          - name: a
+	c16Doc(c16RulesBase, "", `          - name: A
             parent: true
             resources:
               max: {memory: 4}
